@@ -36,6 +36,11 @@ W: generator programs (conservative features of C03) whose shadow assertions are
    middle, last} x what follows {statements after the loop, loop last in its block, loop + statements inside an if arm /
    else arm / match arm} x {all assertions true, first assertion false, last assertion false}, for functions called from
    the shadow block and for loops written directly inside the shadow block.
+   Several shadow blocks for ONE function (2 or 3; adjacent, interleaved with another function's blocks, around other
+   definitions) with the false assertion in the first / middle / last block or none.
+   Output names x history: a good build to -o NAME, then a build with a false assertion to the same NAME, for NAME a prefix
+   of the source name, the source name without extension, ./-prefixed, source name + suffix, unrelated, in a sub-directory,
+   absolute; afterwards there must be no executable at NAME (same reading as the stale-output family).
 """
 import copy
 import os
@@ -707,6 +712,89 @@ def cf_program(cells, variant, falsify=None):
 
 
 # =====================================================================================================
+# several shadow blocks for one function; output names x build history
+# =====================================================================================================
+def multi_block_programs():
+    """-> [(label, text, T, n blocks, layout, false position)]"""
+    out = []
+    fdef = ["fn twice(x: int) -> int {", "    return (* x 2)", "}"]
+    gdef = ["fn succ(x: int) -> int {", "    return (+ x 1)", "}"]
+    mdef = ["fn main() -> int {", "    (println (+ (twice 3) (succ 1)))", "    return 0", "}", "shadow main {", "    assert true", "}"]
+
+    def fblock(i, ok):
+        return ["shadow twice {", "    assert (== (twice %d) %d)" % (i + 2, 2 * (i + 2) + (0 if ok else 1)), "}"]
+
+    def gblock(i, ok):
+        return ["shadow succ {", "    assert (== (succ %d) %d)" % (i, i + 1 + (0 if ok else 1)), "}"]
+    for n in (2, 3):
+        positions = ["none", "first", "last"] + (["middle"] if n == 3 else []) + ["other-function-first-block"]
+        for layout in ("adjacent", "interleaved", "around-definitions"):
+            for pos in positions:
+                bad = {"none": -1, "first": 0, "middle": 1, "last": n - 1}.get(pos, -1)
+                fb = [fblock(i, i != bad) for i in range(n)]
+                gbad = pos == "other-function-first-block"
+                gb = [gblock(i, not (gbad and i == 0)) for i in range(n)]
+                if layout == "adjacent":
+                    lines = fdef + sum(fb, []) + gdef + sum(gb, []) + mdef
+                elif layout == "interleaved":
+                    lines = fdef + gdef
+                    for i in range(n):
+                        lines += fb[i] + gb[i]
+                    lines += mdef
+                else:
+                    lines = fdef + fb[0] + gdef + gb[0] + sum(fb[1:], []) + mdef + sum(gb[1:], [])
+                T = {"twice": [i != bad for i in range(n)], "succ": [not (gbad and i == 0) for i in range(n)], "main": [True]}
+                out.append(("multi-%d-%s-%s" % (n, layout, pos), "\n".join(lines) + "\n", T, n, layout, pos))
+    return out
+
+
+OUT_GOOD = """fn twice(x: int) -> int {
+    return (* x 2)
+}
+shadow twice {
+    assert (== (twice 2) 4)
+}
+fn main() -> int {
+    (println (twice 3))
+    return 0
+}
+shadow main {
+    assert true
+}
+"""
+OUT_BAD = OUT_GOOD.replace("(twice 2) 4", "(twice 2) 5")
+# (class, -o name; @D = the absolute scratch directory)  - the source file is calc.nano
+OUT_NAMES = [("source-name-without-extension", "calc"), ("dot-slash-source-name-without-extension", "./calc"), ("prefix-of-source-name-1", "c"),
+             ("prefix-of-source-name-3", "cal"), ("prefix-with-dot", "calc."), ("source-name-plus-suffix", "calc.nano.bin"),
+             ("source-stem-plus-suffix", "calc_app"), ("unrelated", "out.bin"), ("sub-directory", "sub/calc"), ("sub-directory-prefix", "./sub/c"),
+             ("absolute", "@D/calc"), ("absolute-unrelated", "@D/abs_out")]
+
+
+def out_name_scenario(plain, d, cls, name, src_arg):
+    from ..run import run as sh
+    os.makedirs(os.path.join(d, "sub"), exist_ok=True)
+    name = name.replace("@D", d)
+    path = name if os.path.isabs(name) else os.path.join(d, name)
+    res = {"cls": cls, "name": name, "src": src_arg, "setup_ok": True}
+    with open(os.path.join(d, "calc.nano"), "w") as f:
+        f.write(OUT_GOOD)
+    env = plain.fastcc_env({"TMPDIR": d})
+    r0 = sh([plain.nanoc, src_arg, "-o", name], cwd=d, env=env, cpu=120)
+    st0 = path_state(path)
+    if r0.rc != 0 or st0[0] != "file" or not st0[1] or r0.timeout:
+        res["setup_ok"] = False
+        res["setup"] = (r0.errtext() + r0.text())[-300:]
+        return res
+    with open(os.path.join(d, "calc.nano"), "w") as f:
+        f.write(OUT_BAD)
+    r = sh([plain.nanoc, src_arg, "-o", name], cwd=d, env=env, cpu=120)
+    res.update({"timeout": r.timeout, "rc": r.rc, "status": r.status, "refusal": None if r.rc == 0 else engines.classify_nanoc_failure(r),
+                "before": st0[:3], "after": path_state(path)[:3], "stdout": r.out, "stderr": r.err,
+                "source_still_there": os.path.exists(os.path.join(d, "calc.nano"))})
+    return res
+
+
+# =====================================================================================================
 # observation and oracle
 # =====================================================================================================
 class Case:
@@ -1090,6 +1178,53 @@ def run(ctx):
                                   "%s (%s; loop %s, exit %s at the %s iteration, %s): %s" % (c.label, variant, cell[0], cell[2], cell[3], cell[1], msg),
                                   {"main.nano": c.files["main.nano"], "nanoc.stdout": r.out, "nanoc.stderr": r.err, "expected.txt": "T(p) = %r\n" % (c.T,)})
 
+        # ---------------- several shadow blocks for one function -------------------------------------------------
+        mb_stats = {"programs": 0, "outcomes": {}}
+        mb_jobs = []
+        for label, text, T_, nblk, layout, pos in multi_block_programs():
+            mc = Case(-1, label, {"main.nano": text}, T_, [], [], {"classes": [("multi-block", layout, pos, "int")], "nfalse_intended": 0, "removed": []}, frozenset(["multi-block"]))
+            mc.kind = "multi-block"
+            mc.mb = (nblk, layout, pos)
+            mb_jobs.append(mc)
+        for c, r, exists in pmap(do, mb_jobs):
+            mb_stats["programs"] += 1
+            if r.timeout:
+                mb_stats["outcomes"]["watchdog"] = mb_stats["outcomes"].get("watchdog", 0) + 1
+                continue
+            o, viol = judge(c, r, exists)
+            mb_stats["outcomes"][o] = mb_stats["outcomes"].get(o, 0) + 1
+            if o.startswith("skip:"):
+                viol = viol + [("refused-for-another-reason", o)]
+            for key, msg in viol:
+                ctx.violation("multi-block|%d-blocks|%s|false-in-%s|%s" % (c.mb[0], c.mb[1], c.mb[2], key), "%s: %s" % (c.label, msg),
+                              {"main.nano": c.files["main.nano"], "nanoc.stdout": r.out, "nanoc.stderr": r.err, "expected.txt": "T(p) = %r\n" % (c.T,)})
+
+        # ---------------- output names x build history ------------------------------------------------------------
+        on_stats = {"scenarios": 0, "skipped": 0, "executable_left": 0, "removed": 0, "by_class": {}}
+
+        def do_out(job):
+            k, (cls, name), src_arg = job
+            return out_name_scenario(plain, sc.sub("outname-%02d" % k), cls, name, src_arg)
+
+        ojobs = [(k * 2 + j, on, src) for k, on in enumerate(OUT_NAMES) for j, src in enumerate(("calc.nano", "./calc.nano"))]
+        for res in pmap(do_out, ojobs):
+            if not res["setup_ok"] or res.get("timeout") or res.get("refusal") != "shadow":
+                on_stats["skipped"] += 1
+                continue
+            on_stats["scenarios"] += 1
+            left = res["after"][0] == "file" and res["after"][1]
+            on_stats["by_class"][res["cls"]] = on_stats["by_class"].get(res["cls"], 0) + 1
+            if not res["source_still_there"]:
+                ctx.violation("output-name|%s|source-file-removed" % res["cls"], "nanoc calc.nano -o %s: the refused compile removed the SOURCE file" % res["name"], {"calc.nano": OUT_BAD})
+            if left:
+                on_stats["executable_left"] += 1
+                ctx.violation("stale-executable-left-at-output-path|%s" % res["cls"],
+                              "good build `nanoc %s -o %s`, then the same command on the program with a false assertion: exit %s, but the executable of the earlier build is still at the output path (%r)" % (
+                                  res["src"], res["name"], res["status"], res["after"]),
+                              {"calc.good.nano": OUT_GOOD, "calc.bad.nano": OUT_BAD, "nanoc.stdout": res["stdout"], "nanoc.stderr": res["stderr"]})
+            else:
+                on_stats["removed"] += 1
+
         # ---------------- names of un-shadowed functions -------------------------------------------------------
         from ..run import run as sh_run
 
@@ -1242,6 +1377,8 @@ def run(ctx):
             ctx.require(sum(h["cases"] for h in stale.values()) >= len(STALE_VARIANTS) * 3, "too few stale-output scenarios ran: %s" % stale)
             ctx.require(cf_stats["outcomes"].get("all-true:built", 0) >= 40 and cf_stats["outcomes"].get("false-first:refused+named", 0) >= 300
                         and cf_stats["outcomes"].get("false-last:refused+named", 0) >= 300, "the control-flow grid did not run as planned: %s" % cf_stats)
+            ctx.require(mb_stats["outcomes"].get("built", 0) >= 6 and mb_stats["outcomes"].get("refused+named", 0) >= 20, "the multi-block family did not run as planned: %s" % mb_stats)
+            ctx.require(on_stats["scenarios"] >= 20, "the output-name family did not run as planned: %s" % on_stats)
             ctx.require(names_stats["names"] >= 60 and names_stats["unshadowed_functions_checked"] >= 400 and rejected2 <= 6,
                         "the name family did not run as planned: %s" % names_stats)
             for need in ("main_x", "mainx", "Main", "_main", "ma", "mai", "main_menu", "long255", "list_x", "List_abc"):
@@ -1254,9 +1391,11 @@ def run(ctx):
                         "the run did not see enough of both sides of the gate: %s" % hist)
             ctx.require(missing_checked >= n // 20, "too few functions without a shadow block were observed")
         return ctx.finish({
-            "evaluations": len(results) + sum(h["cases"] for h in stale.values()) + 4 * builtins_judged + names_stats["programs"] + cf_stats["programs_all_true"] + cf_stats["programs_one_false"],
+            "evaluations": len(results) + sum(h["cases"] for h in stale.values()) + 4 * builtins_judged + names_stats["programs"] + cf_stats["programs_all_true"] + cf_stats["programs_one_false"] + mb_stats["programs"] + on_stats["scenarios"],
             "control_flow_grid": dict(cf_stats, loops=CF_LOOPS, exits=CF_EXITS, iterations=CF_ITERS, follows=CF_FOLLOWS,
                                       variants=["function", "in-shadow-block"], truth=["all-true", "false-first", "false-last"], exhaustive=True),
+            "several_blocks_per_function": dict(mb_stats, blocks=[2, 3], layouts=["adjacent", "interleaved", "around-definitions"], exhaustive=True),
+            "output_names_x_history": dict(on_stats, names=[c for c, _ in OUT_NAMES], source_spellings=["calc.nano", "./calc.nano"], exhaustive=True),
             "missing_shadow_name_family": dict(names_stats, pair_lengths=PAIR_LENGTHS, exhaustive=True),
             "builtin_coverage": {"builtins_listed": len(BUILTINS), "builtins_exercised": builtins_judged,
                                  "variants": ["body-false", "shadow-false", "all-true", "no-shadow"], "exhaustive": True, "table": builtin_table},
